@@ -18,8 +18,8 @@ func init() {
 }
 
 // ---- ghost actor tree (name -> node), substituted for the tree operations the spawn path uses. The ghost operations
-// contain no synchronisation operation, so in the concurrency mode each of them executes atomically (switch points are
-// the synchronisation operations of the real code between them).
+// contain no synchronisation operation between their reads and writes of the ghost maps, so in the concurrency mode
+// each lookup / check-and-insert executes atomically (switch points are synchronisation operations only).
 var vC11_nodes map[string]*pidNode
 var vC11_names map[*PID]string
 var vC11_created int // instances started (initialisation succeeded) and never stopped
